@@ -39,6 +39,13 @@ F = [
                 'own one-of (manager.py _filter_node), so the direct consumer never becomes ready and the run hangs; when the candidate is reached '
                 'through its one-of first, its contained failure is delivered to the direct consumer',
       witness={'C02': 'witnesses/KF-CANDSHARED.json'}),
+ dict(id='KF-RECOUT', family='rec_outside_consumer', properties=['C12', 'C01', 'C03', 'C11'],
+      kinds=['wrong_value', 'unexpected_args', 'missing_execution', 'schedule_dependent_outcome', 'missing_default_call',
+             'unexpected_default_call', 'over_execution'],
+      mechanism='a node outside a recurrent subgraph that reads a node inside it without being ordered after the subgraph (it does not depend on '
+                'the recurrent result): it is executed once, with the value of whichever iteration happened to be visible when it became ready '
+                '(manager.py _is_ready_to_execute / hide_last_execution), and it is not re-executed; C03 asks for the final-iteration value',
+      witness={'C12': 'witnesses/KF-RECOUT.json'}),
  dict(id='KF-STORE-REC', family='rec_iterates', properties=['C19'],
       kinds=['recurrent_marker_saved', 'saved_more_than_once', 'write_once_store_failed_run', 'exception_saved', 'saved_value_not_final'],
       mechanism='_run_node saves every intermediate result (manager.py 645-649, see the TODO): the Recurrent marker of the destination and '
